@@ -4,6 +4,7 @@ From Dimod Require Import Base.Util Model.Poly Model.HPoly Model.Samples
   Proofs.PolyFacts Proofs.HPolyFacts Proofs.SamplesFacts.
 From Dimod Require Model.Adj Model.Expr Proofs.AdjEnergy Model.EnergyCy Proofs.EnergyCyFacts.
 From Dimod Require Model.DqmLoop Proofs.DqmLoopFacts Model.HPolyLoop Proofs.HPolyLoopFacts Model.PyBqm Proofs.PyBqmFacts.
+From Dimod Require Gen.Gen_View Model.ViewOps Proofs.ViewOpsFacts.
 Import ListNotations.
 Open Scope Qc_scope.
 
@@ -252,6 +253,22 @@ Print Assumptions C01_pybqm_energies_eq_spec.
 Theorem C01_pybqm_wfb_sound : forall m, PyBqm.pb_wfb m = true -> PyBqmFacts.pb_wf m.
 Proof. exact PyBqmFacts.pb_wfb_sound. Qed.
 Print Assumptions C01_pybqm_wfb_sound.
+
+(* ---------- vartypeview.py VartypeView.energies: the sample conversion (generated steps, exact floor division)
+   followed by the base evaluation is the energy of the polynomial the view reports ---------- *)
+Theorem C01_view_energies_loop :
+  forall (d : Gen_View.vdir) (base : poly) (y : nat -> Qc),
+  (forall v : nat, ViewOpsFacts.in_view_domain d (y v)) ->
+  ViewOps.view_energy d base y = energy (ViewOps.view_poly d base) y.
+Proof. exact ViewOpsFacts.view_energies_spec. Qed.
+Print Assumptions C01_view_energies_loop.
+
+Theorem C01_view_sample_conversion :
+  forall (d : Gen_View.vdir) (x : Qc),
+  ViewOpsFacts.in_view_domain d x -> ViewOps.view_sample_value d x = ViewOps.base_value d x.
+Proof. exact ViewOpsFacts.view_sample_value_spec. Qed.
+Print Assumptions C01_view_sample_conversion.
+
 
 (* non-vacuity *)
 Example C01_example_3cycle :
